@@ -67,9 +67,53 @@ func (b *synB) family(depth int) gr.Sym {
 	fam := b.force
 	b.force = 0
 	if fam == 0 {
-		fam = rapid.IntRange(0, 16).Draw(b.t, "family")
+		fam = rapid.IntRange(0, 17).Draw(b.t, "family")
 	}
 	switch fam {
+	case 17: // terminals p, q and pq (one name the concatenation of two others):
+		// the tails "pq" and "p q" behind two nonterminals, under the same look-ahead
+		if b.maxNT-b.nNT < 2 {
+			alts = []gr.Alt_{body(b.term(), elem())}
+			break
+		}
+		var tp, tq, tpq gr.Sym
+		found := false
+		for _, x := range b.terms {
+			for _, y := range b.terms {
+				for _, z := range b.terms {
+					if !found && x.Kind == gr.SLit && y.Kind == gr.SLit && z.Kind == gr.SLit && x.Name+y.Name == z.Name {
+						tp, tq, tpq, found = x, y, z, true
+					}
+				}
+			}
+		}
+		if !found {
+			trio := rapid.SampledFrom([][]string{{"x", "=", "x="}, {"=", "=", "=="}, {"x", "x", "xx"}, {"if", "x", "ifx"}}).Draw(b.t, "splitTrio")
+			var got []gr.Sym
+			for _, n := range trio {
+				var have *gr.Sym
+				for i := range b.terms {
+					if b.terms[i].Kind == gr.SLit && b.terms[i].Name == n {
+						have = &b.terms[i]
+					}
+				}
+				if have == nil {
+					b.terms = append(b.terms, gr.Sym{Kind: gr.SLit, Name: n})
+					have = &b.terms[len(b.terms)-1]
+				}
+				got = append(got, *have)
+			}
+			tp, tq, tpq = got[0], got[1], got[2]
+		}
+		un, upi := b.newNT()
+		vn, vpi := b.newNT()
+		b.prods[upi].Alts = []gr.Alt_{body(b.term())}
+		b.prods[vpi].Alts = []gr.Alt_{body(b.term())}
+		if rapid.Bool().Draw(b.t, "splitFirst") {
+			alts = []gr.Alt_{body(nt(vn), tp, tq), body(nt(un), tpq)}
+		} else {
+			alts = []gr.Alt_{body(nt(un), tpq), body(nt(vn), tp, tq)}
+		}
 	case 16: // several nonterminals with the same body in two contexts, the followers
 		// of the second context being those of the first in another order: states
 		// with equal cores and equal look-aheads that are distributed differently
@@ -151,7 +195,15 @@ func (b *synB) family(depth int) gr.Sym {
 		// settle and grow by sets that are partly known already; the chain follows
 		// a nonterminal, so that its FIRST set is needed as look-ahead
 		var p gr.Sym
-		if b.maxNT-b.nNT >= 3 {
+		// (the chain has a budget of its own: its automaton stays small)
+		limit := b.nNT + 8
+		if limit > len(ntNames) {
+			limit = len(ntNames)
+		}
+		if limit < b.maxNT {
+			limit = b.maxNT
+		}
+		if limit-b.nNT >= 3 {
 			pn, ppi := b.newNT()
 			b.prods[ppi].Alts = []gr.Alt_{body(b.term()), body(b.term(), b.term())}
 			dedupeAlts(&b.prods[ppi])
@@ -166,7 +218,7 @@ func (b *synB) family(depth int) gr.Sym {
 		}
 		var top gr.Sym
 		prev := -1
-		for i := 0; i < n && b.nNT < b.maxNT; i++ {
+		for i := 0; i < n && b.nNT < limit; i++ {
 			cn, cpi := b.newNT()
 			if prev < 0 {
 				top = nt(cn)
@@ -176,7 +228,18 @@ func (b *synB) family(depth int) gr.Sym {
 					a.Syms = append(a.Syms, b.term())
 				}
 				b.prods[prev].Alts = append(b.prods[prev].Alts, a)
-				if rapid.Bool().Draw(b.t, "chainDirect") {
+				if b.nNT < limit-1 && rapid.IntRange(0, 2).Draw(b.t, "chainSide") == 0 {
+					// a second alternative that starts with a nonterminal too: a short
+					// side branch whose terminal arrives rounds before the chain's
+					zn, zpi := b.newNT()
+					b.prods[zpi].Alts = []gr.Alt_{body(b.term())}
+					z := body(nt(zn))
+					if rapid.Bool().Draw(b.t, "chainSideFirst") {
+						b.prods[prev].Alts = []gr.Alt_{z, a}
+					} else {
+						b.prods[prev].Alts = append(b.prods[prev].Alts, z)
+					}
+				} else if rapid.Bool().Draw(b.t, "chainDirect") {
 					// the level also starts with a terminal directly: one of the
 					// leaves (it then reaches this level twice, the second time in
 					// company) or any other
